@@ -44,4 +44,65 @@ def rules_c17(ctx):
     out += S.rule_kind_compressed(ctx)
     # Elias-Fano: the rank handed to select0 stays within the number of buckets (otherwise ef.low is indexed with a wild value)
     out += p_eliasfano.rule_select_range(ctx)
+    out += rule_back_guard(ctx)
     return out
+
+
+# front()/back() of a member container in a query: sites whose non-emptiness follows from a constructor invariant, confirmed
+# by reading and frozen here (one line of reason each).  Anything else needs an emptiness test on the path.
+BACK_GUARD_TABLE = {
+    ('pgm::CompressedPGMIndex::search', 'levels'): 'EpsilonRecursive == 0 arm only: the constructor loop starts at i = 1, so a non-empty index has exactly one level',
+    ('pgm::DynamicPGMIndex::end', 'levels'): 'every constructor resizes levels to 32 - min_level >= 1 entries',
+}
+
+
+def rule_back_guard(ctx):
+    """no front()/back() of a possibly empty member container in a const member function (a query)"""
+    from cfg import graph
+    from ir import fmt_term
+    obs = []
+    seen = 0
+    for u in ctx.units:
+        for f in u.functions.values():
+            if not f.tname.startswith('pgm::') or not f.d.get('const'):
+                continue
+            for c in f.calls(pred=lambda nd: nd.get('cn') in ('back', 'front')):
+                nd = f.n(c)
+                if not nd.get('obj'):
+                    continue
+                o = f.term(nd['obj'], inline=False)
+                if not (o[0] == 'field' and o[2] == ('this',)):
+                    continue
+                pos = f.block_of(c)
+                if not pos or pos[0] not in graph(f).reach:
+                    continue
+                seen += 1
+                g = graph(f)
+                guarded = False
+                for (b, lab) in g.transitive_control_deps(pos[0]):
+                    cn = g.cond(b)
+                    if not cn:
+                        continue
+                    t = f.term(cn, inline=True)
+                    if any(x[0] == 'call' and x[1].rsplit('::', 1)[-1] in ('empty', 'size') and len(x) == 4 and x[3] == o for x in _subs(t)):
+                        guarded = True
+                why = None
+                if guarded:
+                    st, why = OK, f"`{fmt_term(o)}.{nd['cn']}()` is control dependent on a test of its size"
+                elif (f.tname, o[1]) in BACK_GUARD_TABLE:
+                    st, why = OK, f"`{fmt_term(o)}.{nd['cn']}()`: non-empty by construction ({BACK_GUARD_TABLE[(f.tname, o[1])]})"
+                else:
+                    st, why = VIOLATED, (f"`{fmt_term(o)}.{nd['cn']}()` is evaluated without any test of `{fmt_term(o)}` being non-empty, and no constructor invariant "
+                                         f"is recorded for it (an index that fits one segment may have no level at all)")
+                obs.append(Ob('BACK-GUARD', f, c, 'front()/back() of a member container in a query is reached only when the container is known to be non-empty', why, st, arm=f"{f.name}:{o[1]}"))
+    ctx.stats['back_guard_sites'] = seen
+    return obs
+
+
+def _subs(t):
+    if isinstance(t, tuple):
+        if t and isinstance(t[0], str):
+            yield t
+        for x in t:
+            if isinstance(x, tuple):
+                yield from _subs(x)
